@@ -289,6 +289,9 @@ func c12Process(ctx *core.Ctx, res *core.Result) {
 			if j.house {
 				old := time.Now().Add(-400 * 24 * time.Hour)
 				os.Chtimes(filepath.Join(work, "lock", "router"), old, old)
+				// the lock directory is as old (no lock file was created or removed
+				// for a long time)
+				os.Chtimes(filepath.Join(work, "lock"), old, old)
 				hk := exec.Command(filepath.Join(corpus.RepoDir, "bin", "delete-old-policies"))
 				hk.Env = []string{"HOME=" + work, "PATH=" + filepath.Join(core.VerifDir, ".build", "bin") + ":" + os.Getenv("PATH")}
 				if out, err := hk.CombinedOutput(); err != nil {
